@@ -616,6 +616,23 @@ pub(crate) fn fstatat<Fd: AsFd, P: AsRef<Path>>(dirfd: Fd, path: P) -> Result<St
     })
 }
 
+/// Does `path` exist (relative to `dirfd`, trailing symlinks not followed)?
+///
+/// This is [`fstatat`] reduced to a yes/no answer. In particular no error value
+/// is built when the lookup fails: our error values record the path of `dirfd`
+/// by looking it up through `/proc/thread-self`, and finding out how
+/// `/proc/thread-self` is spelled on this system is what this probe is for.
+pub(crate) fn exists_at<Fd: AsFd, P: AsRef<Path>>(dirfd: Fd, path: P) -> bool {
+    #[cfg(feature = "_verif_hooks")]
+    use crate::verif::shim_fs as rustix_fs;
+    let dirfd = match dirfd.as_fd().hotfix_rustix_fd() {
+        Ok(dirfd) => dirfd,
+        Err(_) => return false,
+    };
+    let flags = AtFlags::NO_AUTOMOUNT | AtFlags::SYMLINK_NOFOLLOW | AtFlags::EMPTY_PATH;
+    rustix_fs::statat(dirfd, path.as_ref(), flags).is_ok()
+}
+
 pub(crate) fn statx<Fd: AsFd, P: AsRef<Path>>(
     dirfd: Fd,
     path: P,
